@@ -32,6 +32,8 @@ pub fn name_pools() -> Vec<(Vec<&'static str>, Vec<&'static str>)> {
         (vec!["a-b", "a", "b", "a_b", "a:b", "ab"], vec!["a-b", "a:b"]),
         // prefixes that merely begin with `xmlns`, and names with several colons
         (vec!["xmlnsx:a", "a", "xmlns_b:c", "p:q:r", "p:q"], vec!["xmlnsx:id", "xmlns_old:type", "xmlnsfoo", "xmlns", "xmlns:p", "p:q:id", "id"]),
+        // an empty prefix: names that START with a colon (round 7: only a non-empty prefix was stripped)
+        (vec![":a", "b", ":c:d", "e"], vec![":href", "k", ":x:y", "id"]),
         // well-known attribute names that tempt special treatment; digits followed by capitals
         (vec!["title", "X509Data", "Sha256Digest", "IPv4Address", "h1Title", "entry"], vec!["xsi:nil", "xml:lang", "xml:space", "xml:id", "nil", "xmlns:xsi", "lang"]),
         // a prefix that is the stem of a numbered / separator sibling; names that are trait names
